@@ -3,6 +3,7 @@ package rules
 import (
 	"go/token"
 	"go/types"
+	"sort"
 	"strings"
 
 	"golang.org/x/tools/go/ssa"
@@ -28,6 +29,101 @@ func runC10(p *core.Prog, r *core.Report) {
 	c10R5(p, r)
 	staleIndexRule(p, r, "C10.R6")
 	c10R7(p, r)
+	structKeyRule(p, r, "C10.R8")
+}
+
+// structKeyRule: what the client learned about one repository (whether it serves the referrers API)
+// answers for that repository only. Every access to a map of scheme/reg keyed by a struct builds its
+// key with the same fields; a key that leaves a field out is a broader entry that answers for others.
+func structKeyRule(p *core.Prog, r *core.Report, rule string) {
+	r.Rule(rule, "cache keys are complete: every lookup and store in a struct-keyed map of scheme/reg builds its key literal with the same set of fields (a key without the repository field makes what was learned on one repository answer for every other repository of the registry)", 2)
+	type access struct {
+		fn     *ssa.Function
+		at     ssa.Instruction
+		fields map[string]bool
+	}
+	byType := map[*types.Named][]access{}
+	keyFields := func(v ssa.Value) (map[string]bool, bool) {
+		ld, ok := v.(*ssa.UnOp)
+		if !ok || ld.Op != token.MUL {
+			return nil, false
+		}
+		al, ok := ld.X.(*ssa.Alloc)
+		if !ok {
+			return nil, false
+		}
+		fs := map[string]bool{}
+		for _, ref := range *al.Referrers() {
+			if fa, ok := ref.(*ssa.FieldAddr); ok {
+				for _, r2 := range *fa.Referrers() {
+					if st, ok := r2.(*ssa.Store); ok && st.Addr == ssa.Value(fa) {
+						fs[core.FieldName(fa.X.Type(), fa.Field)] = true
+					}
+				}
+			}
+			if st, ok := ref.(*ssa.Store); ok && st.Addr == ssa.Value(al) {
+				return nil, false // whole-struct store: not a literal
+			}
+		}
+		return fs, true
+	}
+	for _, fn := range pkgFuncs(p, "scheme/reg") {
+		for _, b := range fn.Blocks {
+			for _, in := range b.Instrs {
+				var m, k ssa.Value
+				switch x := in.(type) {
+				case *ssa.Lookup:
+					m, k = x.X, x.Index
+				case *ssa.MapUpdate:
+					m, k = x.Map, x.Key
+				default:
+					continue
+				}
+				mt, ok := m.Type().Underlying().(*types.Map)
+				if !ok {
+					continue
+				}
+				kn, ok := mt.Key().(*types.Named)
+				if !ok {
+					continue
+				}
+				if _, isStruct := kn.Underlying().(*types.Struct); !isStruct {
+					continue
+				}
+				if fs, ok := keyFields(k); ok {
+					byType[kn] = append(byType[kn], access{fn, in, fs})
+				}
+			}
+		}
+	}
+	n := 0
+	lab := map[*ssa.Function]labeler{}
+	for kn, accs := range byType {
+		all := map[string]bool{}
+		for _, a := range accs {
+			for f := range a.fields {
+				all[f] = true
+			}
+		}
+		for _, a := range accs {
+			n++
+			if lab[a.fn] == nil {
+				lab[a.fn] = labeler{}
+			}
+			var missing []string
+			for f := range all {
+				if !a.fields[f] {
+					missing = append(missing, f)
+				}
+			}
+			sort.Strings(missing)
+			r.Check(len(missing) == 0, rule, p.FuncName(a.fn), lab[a.fn].next("key of type "+kn.Obj().Name()), p.Pos(a.at.Pos()),
+				"this key leaves out "+strings.Join(missing, ", ")+" that other accesses of the same map set: the entry it names answers for every value of that field")
+		}
+	}
+	if n == 0 {
+		r.MissingAnchor(rule, "struct-keyed maps in scheme/reg")
+	}
 }
 
 func c10R1(p *core.Prog, r *core.Report) {
@@ -217,7 +313,9 @@ func c10R2(p *core.Prog, r *core.Report) {
 			rlField = cc.field
 		}
 	}
-	for _, c := range core.CallsTo(put, func(f *types.Func) bool { return f.Pkg() != nil && f.Pkg().Path() == modPath("scheme/reg") && canonObj(f) == "referrerPut" }) {
+	for _, c := range core.CallsTo(put, func(f *types.Func) bool {
+		return f.Pkg() != nil && f.Pkg().Path() == modPath("scheme/reg") && canonObj(f) == "referrerPut"
+	}) {
 		var inval ssa.CallInstruction
 		for _, cc := range calls {
 			if cc.fn == put && cc.method == "Delete" && cc.field == rlField && core.DominatesInstr(cc.c.(ssa.Instruction), c.(ssa.Instruction)) {
